@@ -166,6 +166,7 @@ def main(repo, out_dir):
     if os.environ.get("VERIF_NO_CANON") is None:
         repo = canonical_copy(repo)
     all_failures = []
+    failures_by = {}
     out = {}
     changed = False
     for m in load_extractors():
@@ -197,7 +198,9 @@ def main(repo, out_dir):
                 f.write(text)
             changed = True
         all_failures += failures
+        failures_by[name] = list(failures)
     out["failures"] = all_failures
+    out["failures_by"] = failures_by
     out["changed"] = changed
     # legacy shape used by props/queue.py
     if "queue" in out:
